@@ -150,6 +150,8 @@ class XorEncodedFile(io.RawIOBase):
             nonce = self.fh.read(4)
         except OSError:
             nonce = b"\x00\x00\x00\x00"
+        # the read comes up short at or beyond the end of the file: never leave the position changed
+        self.fh.seek(pos)
         if pos < self.nonce_offset + 12:
             # Exclude "encoded filesize" as nonce:
             # | nonce | encoded filesize | encoded MZ | encoded .. |
